@@ -8,6 +8,9 @@ import datetime, json, sys, zoneinfo
 ZONES = ["Europe/Warsaw", "Europe/London", "America/New_York", "America/Los_Angeles", "America/St_Johns", "Asia/Kolkata",
          "Asia/Kathmandu", "Australia/Sydney", "Australia/Adelaide", "Pacific/Auckland", "Africa/Johannesburg", "America/Sao_Paulo"]
 LOCALS = ["1990-01-15T00:00:00", "1999-12-31T23:59:59", "2000-02-29T12:00:00", "2010-07-15T06:30:00", "2020-01-15T12:00:00", "2020-07-15T12:00:00"]
+# local times around a change of date and around daylight-saving transitions: close instants on different local dates and
+# on different sides of a transition; a zone in which such a local time is ambiguous or does not exist has no entry for it
+NEAR = ["2021-01-01T22:30:00", "2021-01-01T23:30:00", "2021-01-02T00:30:00", "2021-01-02T01:30:00", "2021-03-14T01:30:00", "2021-03-14T03:30:00", "2021-03-28T00:30:00", "2021-03-28T01:30:00", "2021-03-28T03:30:00", "2021-03-28T04:45:00", "2021-10-31T00:30:00", "2021-10-31T03:30:00"]
 
 def main():
     out = {}
@@ -23,6 +26,13 @@ def main():
             back = dt.astimezone(datetime.timezone.utc).astimezone(tz).replace(tzinfo=None)
             if back != datetime.datetime.fromisoformat(l):
                 raise SystemExit("non-existent local time %s in %s" % (l, z))
+            row[l] = int(dt.utcoffset().total_seconds())
+        for l in NEAR:
+            dt = datetime.datetime.fromisoformat(l).replace(tzinfo=tz)
+            if dt.utcoffset() != dt.replace(fold=1).utcoffset():
+                continue
+            if dt.astimezone(datetime.timezone.utc).astimezone(tz).replace(tzinfo=None) != datetime.datetime.fromisoformat(l):
+                continue
             row[l] = int(dt.utcoffset().total_seconds())
         out[z] = row
     # calendar self-check of the engine's reference calendar is done in Rust; here only weekday spot values
